@@ -379,6 +379,7 @@ def run(ctx: Ctx):
     ctx.obligation("correspondence: emitted Fifo/Stack designs = Lean step functions on all generated sequences (spec-defined observables)",
                    mismatches == 0, detail=f"{len(tasks)} sequences, {mismatches} mismatches")
     run_delayed(ctx)
+    run_structured(ctx)
 
 
 def mask(kind, line):
@@ -398,6 +399,8 @@ def replay(ctx, data):
     r = data["replay"]
     if r.get("kind") == "dfifo":
         return replay_delayed(ctx, r)
+    if r.get("kind") == "struct":
+        return replay_structured(ctx, r)
     kind, N, W, m, ops = r["kind"], r["N"], r["W"], r["mode"], r["ops"]
     src = FIFO_SRC.format(N=N, W=W, ARGS="") if kind == "fifo" else STACK_SRC.format(N=N, W=W, MODE=m)
     c = compile_many([(src, "W")])[0]
@@ -913,3 +916,239 @@ def replay_delayed(ctx, r):
     res = d_check_trace(cfg[0], sched, trace, mo) if sched else None
     print("result  :", res)
     return 0 if res is None else 1
+
+
+# ===================================================================================================
+# C14 extension: STRUCTURED element types (the abstract queue / list of the Lean model is element-type agnostic):
+# a std.Record with a scalar field, a flat std.Array and a nested std.Array[std.Array[Unsigned[2],2],2], and the
+# nested array itself as element.  An element is packed field by field into one number, pushed values are random
+# (non-palindromic), popped values are compared field by field (= packed number) with `Fifo.step` / `Stack.step`.
+# ===================================================================================================
+
+STRUCT_SRC = '''from __future__ import annotations
+import cohdl
+from cohdl import std, Bit, BitVector, Unsigned, Port
+
+class Elem(std.Record):
+    tag: Unsigned[3]
+    flat: std.Array[Unsigned[2], 2]
+    cells: std.Array[std.Array[Unsigned[2], 2], 2]
+
+class W(cohdl.Entity):
+    clk = Port.input(Bit)
+    push = Port.input(Bit)
+    pop = Port.input(Bit)
+    in_tag = Port.input(Unsigned[3])
+    in_f0 = Port.input(Unsigned[2])
+    in_f1 = Port.input(Unsigned[2])
+    in_c00 = Port.input(Unsigned[2])
+    in_c01 = Port.input(Unsigned[2])
+    in_c10 = Port.input(Unsigned[2])
+    in_c11 = Port.input(Unsigned[2])
+    out_tag = Port.output(Unsigned[3])
+    out_f0 = Port.output(Unsigned[2])
+    out_f1 = Port.output(Unsigned[2])
+    out_c00 = Port.output(Unsigned[2])
+    out_c01 = Port.output(Unsigned[2])
+    out_c10 = Port.output(Unsigned[2])
+    out_c11 = Port.output(Unsigned[2])
+    empty = Port.output(Bit)
+    full = Port.output(Bit)
+
+    def architecture(self):
+        ctx = std.SequentialContext(std.Clock(self.clk))
+        box = {BOX}
+        flat = std.Array[Unsigned[2], 2]()
+        cells = std.Array[std.Array[Unsigned[2], 2], 2]()
+
+        @std.concurrent
+        def logic():
+            self.empty <<= box.empty()
+            self.full <<= box.full()
+            flat[0] <<= self.in_f0
+            flat[1] <<= self.in_f1
+            cells[0][0] <<= self.in_c00
+            cells[0][1] <<= self.in_c01
+            cells[1][0] <<= self.in_c10
+            cells[1][1] <<= self.in_c11
+
+        @ctx
+        def proc():
+            if self.push:
+                box.push({PUSHVAL})
+            if self.pop:
+                e = box.pop()
+{READ}
+'''
+READ_REC = '''                self.out_tag <<= e.tag
+                self.out_f0 <<= e.flat[0]
+                self.out_f1 <<= e.flat[1]
+                self.out_c00 <<= e.cells[0][0]
+                self.out_c01 <<= e.cells[0][1]
+                self.out_c10 <<= e.cells[1][0]
+                self.out_c11 <<= e.cells[1][1]
+'''
+READ_ARR = '''                self.out_c00 <<= e[0][0]
+                self.out_c01 <<= e[0][1]
+                self.out_c10 <<= e[1][0]
+                self.out_c11 <<= e[1][1]
+'''
+def struct_src(kind, elem, N):
+    et = "Elem" if elem == "rec" else "std.Array[std.Array[Unsigned[2], 2], 2]"
+    box = f"std.Fifo[{et}, {N}]()" if kind == "fifo" else f"std.Stack[{et}, {N}]()"
+    return STRUCT_SRC.format(BOX=box, PUSHVAL=("Elem(tag=self.in_tag, flat=flat, cells=cells)" if elem == "rec" else "cells"),
+                          READ=(READ_REC if elem == "rec" else READ_ARR))
+
+
+S_FIELDS = {"rec": (("tag", 3), ("f0", 2), ("f1", 2), ("c00", 2), ("c01", 2), ("c10", 2), ("c11", 2)),
+            "arr": (("c00", 2), ("c01", 2), ("c10", 2), ("c11", 2))}
+
+
+def s_unpack(elem, v):
+    out = {}
+    for name, w in S_FIELDS[elem]:
+        out[name] = v & ((1 << w) - 1)
+        v >>= w
+    return out
+
+
+def s_pack(elem, get):
+    v, sh = 0, 0
+    for name, w in S_FIELDS[elem]:
+        x = get(name)
+        if x is None:
+            return None
+        v |= int(x) << sh
+        sh += w
+    return v
+
+
+def sim_struct(task):
+    vhdl, elem, ops = task
+    d = Design(vhdl)
+    for p, dr, _ in d.ports():
+        if dr == "in":
+            d.set(p, 0)
+    d.initialise()
+    out = []
+    for op in ops:
+        d.set("push", 1 if op[0] == "p" else 0)
+        d.set("pop", 1 if op[0] == "o" else 0)
+        if op[0] == "p":
+            for name, x in s_unpack(elem, int(op[1:])).items():
+                d.set("in_" + name, x)
+        d.settle()
+        d.clock()
+        out.append(f"{fmt(d.get('empty'))} {fmt(d.get('full'))} {fmt(s_pack(elem, lambda n: d.get('out_' + n)))}")
+    return ";".join(out)
+
+
+def s_gen_ops(rng, kind, elem, N, length):
+    bits = sum(w for _, w in S_FIELDS[elem])
+    cap = N - 1 if kind == "fifo" else N
+    n, ops = 0, []
+    fixed = [0b01_10_11_00_10_01_101, 0b00_11_01_10_01_10_011] if elem == "rec" else [0b00_11_10_01, 0b10_01_00_11]
+    for k in range(length):
+        ch = ["i"] + (["p"] * 3 if n < cap else []) + (["o"] * 2 if n > 0 else [])
+        c = rng.choice(ch)
+        if c == "p":
+            v = fixed[k % 2] & ((1 << bits) - 1) if k < 4 else rng.randrange(1 << bits)
+            ops.append(f"p{v}")
+            n += 1
+        elif c == "o":
+            ops.append("o")
+            n -= 1
+        else:
+            ops.append("i")
+    return ops
+
+
+def s_model(kind, N, ops):
+    line = lean_io.query("C14", [(f"fifo {N} " if kind == "fifo" else f"stack noov {N} ") + " ".join(ops)])[0]
+    return s_canon(kind, line)
+
+
+def s_canon(kind, line):
+    out = []
+    for c in line.split(";"):
+        f = c.split(" ")
+        out.append(f"{f[0]} {f[1]} {f[3] if kind == 'fifo' else f[4]}")
+    return ";".join(out)
+
+
+def s_mask(line):
+    # the output registers before the first pop are unspecified
+    seen, out = False, []
+    for c in line.split(";"):
+        f = c.split(" ")
+        out.append(c)
+    return ";".join(out)
+
+
+def run_structured(ctx):
+    rng = ctx.rng
+    cfgs = [(k, e, N) for k in ("fifo", "stack") for e in ("rec", "arr") for N in ((3, 4) if k == "fifo" else (2, 4))]
+    compiled = compile_many([(struct_src(*c), "W") for c in cfgs])
+    n_seq, length = ctx.scale(3, 10), ctx.scale(80, 300)
+    tasks, reqs, meta = [], [], []
+    for c, r in zip(cfgs, compiled):
+        if not r["ok"]:
+            ctx.report(f"compile:struct:{c}", f"Fifo/Stack with a structured element type {c} is rejected: {r['errtype']}: {r['err'][-200:]}",
+                       {"kind": "struct", "config": list(c), "ops": [], "error": r})
+            continue
+        for _ in range(n_seq):
+            ops = s_gen_ops(rng, c[0], c[1], c[2], length)
+            tasks.append((r["vhdl"], c[1], ops))
+            reqs.append((f"fifo {c[2]} " if c[0] == "fifo" else f"stack noov {c[2]} ") + " ".join(ops))
+            meta.append((c, ops))
+    model = lean_io.query("C14", reqs)
+    impl = fork_map(sim_struct, tasks, fresh=False, chunk=4)
+    bad = 0
+    for (c, ops), mo, im, task in zip(meta, model, impl, tasks):
+        ctx.case(key=("struct", c, " ".join(ops)), nontrivial=sum(1 for o in ops if o == "o") >= 3, kind=f"struct:{c[0]}:{c[1]}")
+        if im[0] != "ok":
+            bad += 1
+            ctx.report(f"sim-error:struct:{c}", f"emitted VHDL of {c} cannot be executed: {im[1]}",
+                       {"kind": "struct", "config": list(c), "ops": ops, "error": im[1]})
+            continue
+        mo = s_canon(c[0], mo)
+        if mo == im[1]:
+            continue
+        bad += 1
+        if bad > 3:
+            continue
+
+        def fails(cand, c=c, vhdl=task[0]):
+            n, cap = 0, (c[2] - 1 if c[0] == "fifo" else c[2])
+            for o in cand:
+                n += (o[0] == "p") - (o[0] == "o")
+                if n < 0 or n > cap:
+                    return False
+            return s_model(c[0], c[2], cand) != sim_struct((vhdl, c[1], list(cand)))
+
+        small = shrink_ops(ops[: first_diff(mo, im[1])[0] + 1], fails)
+        mo2, im2 = s_model(c[0], c[2], small), sim_struct((task[0], c[1], small))
+        i, x, y = first_diff(mo2, im2)
+        pv = [int(o[1:]) for o in small if o[0] == "p"]
+        ctx.report(f"struct:{c[0]}:{c[1]}:N={c[2]}:{' '.join(small)}",
+                   f"std.{c[0]} with element type {c[1]} (record with scalar + flat array + nested array / nested array), N={c[2]}: after "
+                   f"{' '.join(small)} the design shows `{y}` where the queue/list gives `{x}` (empty full popped-element, fields packed "
+                   f"{[n for n, _ in S_FIELDS[c[1]]]} lsb first; pushed {[s_unpack(c[1], v) for v in pv]}, popped {s_unpack(c[1], int(y.split(' ')[2])) if y and y.split(' ')[2] != '-' else y})",
+                   {"kind": "struct", "config": list(c), "ops": small, "clock": i, "expected": x, "observed": y,
+                    "wrapper_source": struct_src(*c)})
+    ctx.obligation("structured element types (record with nested arrays, nested array): popped elements = pushed elements field by field, flags exact (vs Fifo.step / Stack.step)",
+                   bad == 0, detail=f"{len(tasks)} sequences, {bad} mismatches")
+
+
+def replay_structured(ctx, r):
+    c = tuple(r["config"])
+    ops = r["ops"]
+    cc = compile_many([(struct_src(*c), "W")])[0]
+    if not cc["ok"]:
+        print("wrapper rejected:", cc)
+        return 1
+    mo, im = s_model(c[0], c[2], ops), sim_struct((cc["vhdl"], c[1], ops))
+    print("ops     :", " ".join(ops))
+    print("expected:", mo)
+    print("observed:", im)
+    return 0 if mo == im else 1
